@@ -297,6 +297,11 @@ def scenarioCase (args : List String) (impl : String) : Verdict :=
             if tok == "D=asked" then
               cont { w with asked := w.dg.length :: w.asked, dg := w.dg ++ [((w.readersOn cn).headD 0, cn, peer, d)] }
                 [("datagram_goes_to_the_one_reader", (w.readersOn cn).length == 1)]
+            else if tok.startsWith "D=serve-returned" then
+              -- Serve returned holding a datagram its read had delivered: that datagram is never handled
+              let i := (w.readersOn cn).headD 0
+              cont { w with returned := i :: w.returned, reading := w.reading.erase i }
+                [("every_received_datagram_is_handed_to_a_goroutine", false)]
             else cont w []
           | .d t =>
             if tok.startsWith "d=handler:" || tok == "d=dropped" then
